@@ -269,10 +269,12 @@ func MapKeys[K comparable, V any](m map[K]V, site int) []K {
 		return keys
 	}
 	ks := make([]keyed[K], n)
-	for i, k := range keys {
-		kind, s, iv := sortKey(any(k))
-		ks[i] = keyed[K]{k: k, kind: kind, s: s, i: iv}
-	}
+	quietly(func() {
+		for i, k := range keys {
+			kind, s, iv := sortKey(any(k))
+			ks[i] = keyed[K]{k: k, kind: kind, s: s, i: iv}
+		}
+	})
 	rot := singleBucket(*(*unsafe.Pointer)(unsafe.Pointer(&m)), n)
 	if rot {
 		// native order is slot order up to rotation: normalise so that the smallest key is first
@@ -347,17 +349,19 @@ func ReflectKeys(keys []reflect.Value, site int) []reflect.Value {
 		i    int64
 	}
 	ks := make([]rk, n)
-	for i, k := range keys {
-		var kind int
-		var s string
-		var iv int64
-		if k.CanInterface() {
-			kind, s, iv = sortKey(k.Interface())
-		} else {
-			kind, s = 0, fmt.Sprint(k)
+	quietly(func() {
+		for i, k := range keys {
+			var kind int
+			var s string
+			var iv int64
+			if k.CanInterface() {
+				kind, s, iv = sortKey(k.Interface())
+			} else {
+				kind, s = 0, fmt.Sprint(k)
+			}
+			ks[i] = rk{k, kind, s, iv}
 		}
-		ks[i] = rk{k, kind, s, iv}
-	}
+	})
 	sort.SliceStable(ks, func(a, b int) bool {
 		return lessKey(ks[a].kind, ks[a].s, ks[a].i, ks[b].kind, ks[b].s, ks[b].i) < 0
 	})
